@@ -560,7 +560,9 @@ def register_wrappers(R):
 
     R.add(f"{TREE}:Tree.traverse", prop="C04",
           variants={"enter+leave": tt_setup(True, True), "enter-only": tt_setup(True, False), "leave-only": tt_setup(False, True)},
-          ghost_exit=tt_exit, returns="oref", options=dict(modular=True),
+          ghost_exit=tt_exit, returns="oref",
+          # the wrapper hands closures to swc_utils.traverse; its contract does not rely on their effects (it probes them itself)
+          options=dict(modular=True, modular_traverse_ok=True),
           ensures=[("callbacks-see-handles-of-the-same-nodes-and-values-pass-through-unchanged", tt_post)])
 
     # ---- Tree.Node.traverse: starts at this node
